@@ -562,7 +562,27 @@ class Lib:
             name = name or b.name
             b = b.arr
         if isinstance(a, Ref) or isinstance(b, Ref):
-            raise EngineError("DataFrame arithmetic")
+            # DataFrame arithmetic `df op df`, `df op scalar`, `scalar op df` (op in + - * /): element-wise per column; two
+            # frames must have the same columns in the same order and the same length (side obligation); the result is a new
+            # frame (pandas aligns on labels; both frames carry the default RangeIndex)
+            from .pandas_model import df_content, new_df
+            da = isinstance(a, Ref) and a.kind == "df"
+            db = isinstance(b, Ref) and b.kind == "df"
+            if not (da or db) or op not in ("+", "-", "*", "/") or (not da and not sv.is_scalar(norm(a))) or (not db and not sv.is_scalar(norm(b))):
+                raise EngineError("DataFrame arithmetic")
+            ca = df_content(a) if da else None
+            cb = df_content(b) if db else None
+            ref = ca or cb
+            if da and db:
+                if list(ca["order"]) != list(cb["order"]):
+                    raise EngineError("DataFrame arithmetic on frames with different columns")
+                A.require_dim_eq(ca["n"], cb["n"], "dataframe-arithmetic-equal-length")
+            cols = {}
+            for cname in ref["order"]:
+                x = ca["cols"][cname] if da else a
+                y = cb["cols"][cname] if db else b
+                cols[cname] = A.binop(op, x, y)
+            return new_df(cols, ref["order"], ref["n"])
         r = interp.binop(op, a, b)
         return SeriesVal(r, name) if isinstance(r, A.Arr) else r
 
